@@ -12,7 +12,9 @@ from verif.gen.tokens import TOKEN_FIND
 HTML_VARIANTS = ("p", "bare", "sections", "implied")     # "implied" only for text/html (optional end tags omitted)
 HTML_SECTIONS = ("none", "body", "head", "foot", "headfoot", "bodies")
 HTML_OMIT = "crsp"          # end tags that may be left out: c = </td> </th>, r = </tr>, s = </thead> </tbody> </tfoot>, p = </p>
-HTML_FLAGS = ("ws", "attr", "upper", "cg")
+HTML_FLAGS = ("ws", "attr", "upper", "cg", "sc", "cm")
+HTML_XML_ONLY = ("sc",)     # spellings only an XML document can have (EPUB content documents)
+INLINE_WRAPS = ("b", "i", "em", "span", "code")   # the inline element put around every second run of a paragraph ("wrap")
 
 
 # ------------------------------------------------------------------------------------------------ HTML renderer
@@ -28,7 +30,12 @@ def html_spelling(variant) -> dict:
          "ws": 1     line breaks and indentation between the table tags (and after the text of a cell whose end tag is omitted)
          "attr": 1   attributes on the cell tags: th scope=row|col (unquoted), td class="x" colspan="1" rowspan="1"
          "upper": 1  upper-case tag names (text/html only)
-         "cg": 1     a <colgroup> with one void <col> per column before the rows}
+         "cg": 1     a <colgroup> with one void <col> per column before the rows
+         "sc": 1|2   XML only: every element without content is written as an empty-element tag, the way every XML serializer
+                     does (<td/>, <th/>, <p/>; 2: with a blank before the slash, <td />). In text/html the slash of a non-void
+                     start tag is ignored, so the spelling does not exist there
+         "cm": 1     a comment holding a word between the rows, between the cells and inside every cell
+         "wrap": name  the inline element of INLINE_WRAPS written around every second run of a paragraph (default "b")}
     Which cells are <th> is part of the table itself (["tbl", rows, {"th": mask}]), not of the spelling."""
     if isinstance(variant, dict):
         sp = {"v": "bare", "sec": "none", "omit": ""}
@@ -36,8 +43,10 @@ def html_spelling(variant) -> dict:
         if sp["v"] not in ("p", "bare") or sp["sec"] not in HTML_SECTIONS or any(ch not in HTML_OMIT for ch in sp["omit"]):
             raise ValueError("html spelling %r" % (variant,))
         for k in sp:
-            if k not in ("v", "sec", "omit") + HTML_FLAGS:
+            if k not in ("v", "sec", "omit", "wrap") + HTML_FLAGS:
                 raise ValueError("html spelling key %r" % (k,))
+        if sp.get("wrap", "b") not in INLINE_WRAPS or sp.get("sc") not in (None, 0, 1, 2):
+            raise ValueError("html spelling %r" % (variant,))
         return sp
     if variant == "p":
         return {"v": "p", "sec": "none", "omit": ""}
@@ -56,7 +65,13 @@ def html_is_xml_ok(variant) -> bool:
     return not sp["omit"] and not sp.get("upper") and not sp.get("attr")
 
 
-def html_blocks(blocks, variant="p") -> str:
+def html_is_html_ok(variant) -> bool:
+    """can the spelling be written as text/html? (no empty-element tags for non-void elements)"""
+    sp = html_spelling(variant)
+    return not any(sp.get(f) for f in HTML_XML_ONLY)
+
+
+def html_blocks(blocks, variant="p", xml=False) -> str:
     """ADM blocks (only "p" with ["t", tok] inlines and "tbl") -> markup that is valid both as HTML5 and XHTML as long as
     html_is_xml_ok(variant). See html_spelling for the spellings; the four named variants are
 
@@ -65,7 +80,9 @@ def html_blocks(blocks, variant="p") -> str:
        "sections"  like "bare"; tables with >= 2 rows put row 0 in <thead> with <th> cells, the rest in <tbody>
        "implied"   like "bare" with the optional end tags of td / tr left out (HTML5 13.1.2.4)
     """
-    return _blocks(blocks, html_spelling(variant))
+    sp = dict(html_spelling(variant))
+    sp["_xml"] = bool(xml)
+    return _blocks(blocks, sp)
 
 
 def _blocks(blocks, sp, in_cell=False) -> str:
@@ -73,9 +90,13 @@ def _blocks(blocks, sp, in_cell=False) -> str:
     for b in blocks:
         if b[0] == "p":
             if in_cell and "p" in sp["omit"]:        # only inside cells: there the cell end / next cell start ends the paragraph
-                out.append(_tag(sp, "p") + _inl(b[1]))
+                out.append(_tag(sp, "p") + _inl(b[1], sp))
             else:
-                out.append(_tag(sp, "p") + _inl(b[1]) + _tag(sp, "/p"))
+                out.append(_elem(sp, "p", "", _inl(b[1], sp)))
+        elif b[0] == "h":
+            out.append(_elem(sp, "h%d" % b[1], "", _inl(b[2], sp)))
+        elif b[0] == "ul":
+            out.append(_tag(sp, "ul") + "".join(_elem(sp, "li", "", _cell(it, sp)) for it in b[1]) + _tag(sp, "/ul"))
         elif b[0] == "tbl":
             out.append(_table(b[1], sp, (b[2] if len(b) > 2 else None) or {}, in_cell))
         else:
@@ -89,18 +110,41 @@ def _tag(sp, name, attrs="") -> str:
     return "<%s%s>" % (name, attrs)
 
 
-def _inl(xs) -> str:
-    s = []
+def _elem(sp, name, attrs, content) -> str:
+    """one element; without content and under the XML spelling "sc" an empty-element tag"""
+    if content == "" and sp.get("sc"):
+        return "<%s%s%s/>" % (name, attrs, " " if sp["sc"] == 2 else "")
+    return _tag(sp, name, attrs) + content + _tag(sp, "/" + name)
+
+
+def _inl(xs, sp=None) -> str:
+    """inlines of one paragraph: ["t", text] runs (every second run of a paragraph is written inside the inline element
+    sp["wrap"], so that two adjacent runs are always kept apart by markup only), ["br"] line break, ["a", url, inlines]"""
+    sp = sp or {}
+    s, nrun = [], 0
     for x in xs:
-        if x[0] != "t":
+        if x[0] == "t":
+            if nrun % 2:
+                w = sp.get("wrap", "b")
+                s.append(_tag(sp, w, ' class="x"' if w == "span" else "") + x[1] + _tag(sp, "/" + w))
+            else:
+                s.append(x[1])
+            nrun += 1
+        elif x[0] == "br":
+            s.append("<br/>" if sp.get("_xml") else _tag(sp, "br"))
+        elif x[0] == "tab":
+            s.append("\t")                          # a TAB character is inter-word white space in HTML
+        elif x[0] == "a":
+            s.append(_tag(sp, "a", ' href="%s"' % x[1]) + _inl(x[2], sp) + _tag(sp, "/a"))
+            nrun = 0
+        else:
             raise NotImplementedError("C13 html renderer: inline %r" % (x[0],))
-        s.append(x[1])
     return "".join(s)
 
 
 def _cell(cell, sp) -> str:
     if sp["v"] != "p" and len(cell) == 1 and cell[0][0] == "p":
-        return _inl(cell[0][1])
+        return _inl(cell[0][1], sp)
     return _blocks(cell, sp, True)
 
 
@@ -160,16 +204,31 @@ def _table(rows, sp, extra, nested=False) -> str:
             attrs = ""
             if sp.get("attr"):
                 attrs = (" scope=%s" % ("col" if i == 0 else "row")) if th else ' class="x" colspan="1" rowspan="1"'
-            x += [ind2, _tag(sp, name, attrs), _cell(c, sp)]
+            content = _cell(c, sp) + (_comment(sp) if sp.get("cm") and content_ok(c) else "")
             if "c" not in omit:
-                x.append(_tag(sp, "/" + name))
+                x += [ind2, _elem(sp, name, attrs, content)]
+            else:
+                x += [ind2, _tag(sp, name, attrs), content]
             x.append(nl)
+            if sp.get("cm"):
+                x.append(_comment(sp))
         if "r" not in omit:
             x += [ind1, _tag(sp, "/tr"), nl]
+        if sp.get("cm"):
+            x.append(_comment(sp))
     if cur is not None and "s" not in omit:
         x += [_tag(sp, "/" + cur[0]), nl]
     x.append(_tag(sp, "/table"))
     return "".join(x)
+
+
+def content_ok(cell) -> bool:
+    """a comment is put inside the cells that have content (an empty cell stays empty)"""
+    return bool(cell)
+
+
+def _comment(sp) -> str:
+    return "<!-- Xcmmnt x -->"
 
 
 def html_is_xml_ok_sp(sp) -> bool:
